@@ -25,13 +25,19 @@ import (
 // hookHandler is a slog.Handler that lets the harness act at the client's log
 // statements (real preemption points outside the client's locks).
 type hookHandler struct {
-	f func(msg string)
+	f  func(msg string)
+	fa func(msg string, attrs map[string]string) // with attributes rendered as strings
 }
 
 func (h *hookHandler) Enabled(context.Context, slog.Level) bool { return true }
 func (h *hookHandler) Handle(_ context.Context, r slog.Record) error {
 	if h.f != nil {
 		h.f(r.Message)
+	}
+	if h.fa != nil {
+		m := map[string]string{}
+		r.Attrs(func(a slog.Attr) bool { m[a.Key] = a.Value.String(); return true })
+		h.fa(r.Message, m)
 	}
 	return nil
 }
